@@ -8,6 +8,32 @@ One case = one history over one shared allocator registry, driven through
 plugins/dhcp4/local print the complete registry and lease table after every op)."""
 
 ID = "C02"
+def _fasttick_session_go():
+    """The reaper (internal/ipoe/session.go cleanupSessions) has no clock seam: its body sits in a loop behind
+    time.NewTicker(5 * time.Minute).  So that the stage-B harness can RUN the real function, the file is injected with
+    the same -overlay mechanism as the harness files, as a copy of the CURRENT file of the repository under test in
+    which nothing but the ticker period inside cleanupSessions is rewritten (to 2 ms).  Generated at every run from
+    VERIF_REPO; a file in which the ticker cannot be found makes the check fail loudly."""
+    import os, re, hashlib
+    repo = os.environ.get("VERIF_REPO", "/repo")
+    verif = os.path.dirname(os.path.dirname(os.path.abspath(__file__)))
+    src = open(os.path.join(repo, "internal/ipoe/session.go")).read()
+    m = re.search(r"func \(c \*Component\) cleanupSessions\(\) \{", src)
+    if not m:
+        raise RuntimeError("C02: cleanupSessions not found in internal/ipoe/session.go")
+    head, body = src[:m.end()], src[m.end():]
+    body, n = re.subn(r"time\.NewTicker\([^\n]*\)", "time.NewTicker(2 * time.Millisecond)", body, count=1)
+    if n != 1:
+        raise RuntimeError("C02: no time.NewTicker in cleanupSessions (clock seam changed: adapt props/C02.py)")
+    rel = os.path.join("build", "gen", "C02_" + hashlib.md5(repo.encode()).hexdigest()[:6])
+    os.makedirs(os.path.join(verif, rel), exist_ok=True)
+    out = os.path.join(rel, "ipoe_session_fasttick.go")
+    tmp = os.path.join(verif, out) + ".%d" % os.getpid()
+    open(tmp, "w").write(head + body)
+    os.replace(tmp, os.path.join(verif, out))
+    return out
+
+
 HARNESSES = [dict(name="pppoe", pkg="./internal/pppoe/", test="TestVerifC02", timeout=900,
                   files=[("internal/pppoe/zz_verif_c02_test.go", "harness/C02/zz_verif_c02_test.go"),
                          ("pkg/allocator/zz_verif_c02_snap.go", "harness/C02/zz_verif_c02_alloc_snap.go"),
@@ -19,7 +45,8 @@ HARNESSES = [dict(name="pppoe", pkg="./internal/pppoe/", test="TestVerifC02", ti
                          ("pkg/allocator/zz_verif_c02_snap.go", "harness/C02/zz_verif_c02_alloc_snap.go"),
                          ("plugins/dhcp4/local/zz_verif_c02_snap.go", "harness/C02/zz_verif_c02_dhcp4_snap.go"),
                          ("plugins/dhcp6/local/zz_verif_c02_snap.go", "harness/C02/zz_verif_c02_dhcp6_snap.go"),
-                         ("pkg/opdb/zz_verif_c02_idle.go", "harness/C02/zz_verif_c02_opdb_idle.go")])]
+                         ("pkg/opdb/zz_verif_c02_idle.go", "harness/C02/zz_verif_c02_opdb_idle.go"),
+                         ("internal/ipoe/session.go", _fasttick_session_go())])]
 
 
 def route(case):
@@ -57,8 +84,8 @@ TRUSTED = ["stage A drives IPoE at function level: the release sequences of inte
            "stage B: the mapping from component events to model ops (gates: approved / in flight / created / "
            "pending) lives in ocaml/C02_run.ml, not in Gallina; a wrong mapping shows as a mismatch",
            "stage B fakes: event bus, config, cache, southbound, in-memory opdb",
-           "lease expiry: the loop body of cleanupSessions sits behind a 5-minute ticker; the harness transcribes it "
-           "(reap decision = the real sessionPastLease / half-open idle rule on clocks moved into the past)"]
+           "lease expiry: the REAL cleanupSessions runs; internal/ipoe/session.go is injected as a copy of the current "
+           "file with only the ticker period inside cleanupSessions rewritten (5 min -> 2 ms), generated at every run"]
 ASSUMPTIONS = ["theorems assume pools of one family and one VRF have pairwise disjoint ranges and, for PD pools, a "
                "well-formed geometry (C02_config_pools_wf discharges pool_wf/resettable from it)",
                "each handler runs atomically (goroutine-per-packet interleavings inside one handler are not modelled)"]
@@ -568,11 +595,60 @@ def gen_ppp6(rng):
     return " ".join(toks) + " ; " + " ; ".join(ops)
 
 
+OVERLAP_SHAPES = [
+    # (name, B's range relative to A = [a, a+9], Config.Validate must accept?)
+    ("inside", 3, 5, False), ("single-inside", 4, 4, False), ("covering", -2, 12, False),
+    ("partial-right", 5, 14, False), ("partial-left", -4, 3, False), ("same-start", 0, 3, False),
+    ("same-end", 7, 9, False), ("touch-end", 9, 11, False), ("identical", 0, 9, False),
+    ("adjacent-right", 10, 12, True), ("adjacent-left", -3, -1, True), ("apart", 40, 44, True),
+]
+PD_SHAPES = [
+    # A = base/60 -> /64 (16 prefixes); B = (offset in /64 units, network bits)
+    ("inside-62", 4, 62, False), ("inside-63-last", 14, 63, False), ("covering-56", 0, 56, False),
+    ("same-base-62", 0, 62, False), ("identical", 0, 60, False),
+    ("adjacent-62", 16, 62, True), ("apart-60", 64, 60, True),
+]
+
+
+def gen_overlap(rng, i):
+    """deterministic block: two pools of one family in every relative position - B strictly inside A, covering it,
+    overlapping on either side without a common end point, sharing exactly one end point, a single address inside,
+    identical, adjacent (accepted), apart (accepted) - in the SAME VRF (Config.Validate decides as listed) or in two
+    VRFs (always accepted); IPv4, IA_NA and PD networks (one inside another, different network lengths).  Accepted
+    configurations then serve one subscriber per profile."""
+    fam = ("4", "6", "D")[i % 3]
+    same_vrf = (i // 3) % 4 != 3
+    vb = "0" if same_vrf else "1"
+    if fam == "D":
+        name, off, nb, ok = PD_SHAPES[(i // 12) % len(PD_SHAPES)]
+        base = V6BASE + (0x400 << 64)
+        toks = ["P6", "3", "0", "0", str(V6BASE + (7 << 64) + 1), str(V6BASE + (7 << 64) + 4),
+                "P6", "5", "1", vb, str(V6BASE + (8 << 64) + 1), str(V6BASE + (8 << 64) + 4),
+                "PD", "1", "0", "0", str(base), "60", "64",
+                "PD", "2", "1", vb, str((base + (off << 64)) >> (128 - nb) << (128 - nb)), str(nb), "64"]
+    else:
+        name, lo, hi, ok = OVERLAP_SHAPES[(i // 12) % len(OVERLAP_SHAPES)]
+        a = (V4BASE + 256 * 13 + 20) if fam == "4" else (V6BASE + (9 << 64) + 0x100)
+        toks = ["P" + fam, "1", "0", "0", str(a), str(a + 9)] + (["-"] if fam == "4" else [])
+        toks += ["P" + fam, "2", "1", vb, str(a + lo), str(a + hi)] + (["-"] if fam == "4" else [])
+    if fam == "4":
+        toks += ["G", "0", "0", "-", "G", "1", "1", "-"]
+    else:
+        toks += ["G", "0", "-", "0", "G", "1", "-", "1"]
+    toks += ["S", "1", "P", "0", "1", "S", "2", "P", "1", "2"]
+    v2 = "0" if same_vrf else "1"
+    ops = ["PA 1 0 - - - - - -", "PA 2 %s - - - - - -" % v2]
+    if fam != "4":
+        ops += ["PV 1", "PV 2"]
+    ops += ["PT 1", "PX 1"]
+    return " ".join(toks) + " ; " + " ; ".join(ops)
+
+
 def gen_cases(rng, tier, budget):
     n = budget or (700 if tier == "quick" else 20000)
     return ([gen_one(rng) for _ in range(n)] + [gen_churn(rng, False) for _ in range(n // 5)] +
             [gen_b(rng) for _ in range(n // 2)] + [gen_churn(rng, True) for _ in range(n // 7)] +
-            [gen_reauth(rng) for _ in range(n // 7)] + [gen_ipcp(rng) for _ in range(n // 10)] + [gen_ha(rng) for _ in range(n // 10)] + [gen_ppp6(rng) for _ in range(n // 10)])
+            [gen_reauth(rng) for _ in range(n // 7)] + [gen_ipcp(rng) for _ in range(n // 10)] + [gen_ha(rng) for _ in range(n // 10)] + [gen_ppp6(rng) for _ in range(n // 10)] + [gen_overlap(rng, i) for i in range(max(n // 7, 150))])
 
 
 # ------------------------------------------------------------------ parsing helpers
